@@ -212,9 +212,17 @@ func (r *peerRig) newPeerWith(handle, kind string, host int, vk bool, script []b
 	}
 	conn := newMemConn(&net.TCPAddr{IP: net.ParseIP(ip), Port: r.port}, script)
 	p.AssociateConnection(conn)
+	gone := make(chan struct{})
+	go func() { p.WaitForDisconnect(); close(gone) }()
 	for i := 0; vk && i < versions; i++ {
 		select {
 		case <-seen:
+		case <-gone:
+			if i == 0 {
+				return nil, fmt.Errorf("peer %s: disconnected during the version handshake", handle)
+			}
+			// a further version message was refused by the peer code (what a repaired peer.go does)
+			i = versions
 		case <-time.After(60 * time.Second):
 			return nil, fmt.Errorf("peer %s: version handshake over the in-memory connection did not complete", handle)
 		}
